@@ -226,6 +226,8 @@ func checkC02Decode(c *Check) {
 		}
 	}
 	c.openBytesStable("C02.6 open-bytes-stable")
+	c.holdTimerRestartDiscipline("C02.5 accepted-open-proceeds")
+	c.disableEnablePairing("C02.5 accepted-open-approved")
 	c.tlvLoopRules("C02.4 optional-parameters", "decodeOptionalParams", 0)
 	c.tlvLoopRules("C02.4 capabilities", "capabilityOptionalParam.decode", 1)
 
